@@ -494,6 +494,8 @@ def run(chk, F):
         "produce equal output are not decided",
     ]
     rule_r14(chk, F)
+    from rules import c02_modewidth
+    c02_modewidth.run(chk, F)
     from rules import a64; a64.run_c02(chk, F)  # noqa: E702  arm64 siblings (aarch64 fact set)
 
 
